@@ -6,6 +6,8 @@
 mod emit;
 mod prng;
 mod c11;
+mod tlv;
+mod tlv_parse;
 
 use emit::Report;
 
@@ -67,6 +69,8 @@ fn main() {
     };
     let (rep, shard): (Report, usize) = match prop.as_str() {
         "C11" => (c11::run(&ctx), 150),
+        "C01" | "C03" | "C04" => (tlv::run(&ctx, &prop), 50),
+        "C02" => (tlv_parse::run(&ctx), 100),
         _ => {
             eprintln!("unknown property {}", prop);
             std::process::exit(2);
